@@ -1,6 +1,6 @@
 """Per-property checks.  Each function check_Cnn(work, tier, seed) returns an
 Outcome plus the evidence parameters; vcheck dispatches here."""
-import json, os, time, random
+import json, os, time, random, subprocess, shutil
 from core import *
 from flow import *
 from scen import *
@@ -1765,3 +1765,167 @@ def check_C19(work, tier, seed):
 
 
 CHECKS.update({"C19": check_C19})
+
+
+# ------------------------------------------------------------------ C20 example tools
+
+def run_tool(root, tooldir, tool, args, infile_bytes, rng, idx):
+    """Run one example binary; returns (rc, outexists, outbytes)."""
+    d = os.path.join(tooldir, "case%d" % idx)
+    os.makedirs(d)
+    inp = os.path.join(d, "in.bin")
+    outp = os.path.join(d, "out.bin")
+    if infile_bytes is not None:
+        with open(inp, "wb") as f:
+            f.write(infile_bytes)
+    exe = os.path.join(root, "examples", "skinny-" + tool)
+    argv = [exe] + [a.replace("@IN", inp).replace("@OUT", outp) for a in args]
+    p = subprocess.run(argv, stdout=subprocess.PIPE, stderr=subprocess.PIPE, timeout=60)
+    ex = os.path.exists(outp)
+    data = open(outp, "rb").read() if ex else b""
+    shutil.rmtree(d, ignore_errors=True)
+    return p.returncode, 1 if ex else 0, data
+
+
+def gen_tool_cases(seed, tier):
+    rng = random.Random(seed)
+    rb = lambda n: bytes(rng.randrange(256) for _ in range(n))
+    thorough = tier == "thorough"
+    good, bad = [], []
+    for tool in ("ctr", "tweak", "ecb"):
+        for bs in (16, 8):
+            maxk = 2 * bs if tool == "tweak" else 3 * bs
+            klens = list(range(bs, maxk + 1))                 # EVERY legal key length
+            flens = [0, 1, bs - 1, bs, bs + 1, 3 * bs + 5, 1023, 1024, 1025]
+            if thorough:
+                flens += [2047, 2048, 2049, 3 * 1024 + 17]
+            for i, kl in enumerate(klens):
+                fl = flens[i % len(flens)] if not (tool == "tweak" and bs == 16 and flens[i % len(flens)] > 600 and not thorough) \
+                    else 5 * bs + 3
+                twl = rng.choice([None, 1, 2, bs - 1, bs]) if tool != "ecb" else None
+                tw = None
+                if twl is not None:
+                    tw = rb(twl)
+                    if rng.random() < 0.3:
+                        tw = rb(twl - 1) + b"\xff" if twl > 1 else b"\xff"   # carries in the tweak/counter
+                dec = 1 if (tool != "ctr" and rng.random() < 0.4) else 0
+                good.append(dict(tool=tool, bs=bs, key=rb(kl), tw=tw, dec=dec, data=rb(fl)))
+            # large files at both ends of the key range
+            for fl in ([1024 + bs + 3] if not thorough else [2048 + 1, 3 * 1024 + 17]):
+                if tool == "tweak" and bs == 16 and not thorough:
+                    continue
+                good.append(dict(tool=tool, bs=bs, key=rb(bs), tw=None, dec=0, data=rb(fl)))
+            # invalid options
+            k = rb(bs).hex()
+            B = ["-b", str(bs * 8)]
+            bad += [
+                dict(tool=tool, why="bad block size", args=["-b", "96", "-k", k, "@IN", "@OUT"]),
+                dict(tool=tool, why="non-hex key", args=B + ["-k", "zz" + k[2:], "@IN", "@OUT"]),
+                dict(tool=tool, why="key too short", args=B + ["-k", rb(bs - 1).hex(), "@IN", "@OUT"]),
+                dict(tool=tool, why="key too long", args=B + ["-k", rb(maxk + 1).hex(), "@IN", "@OUT"]),
+                dict(tool=tool, why="missing key", args=B + ["@IN", "@OUT"]),
+                dict(tool=tool, why="missing output file name", args=B + ["-k", k, "@IN"]),
+                dict(tool=tool, why="missing file names", args=B + ["-k", k]),
+                dict(tool=tool, why="unknown option", args=B + ["-k", k, "-x", "@IN", "@OUT"]),
+                dict(tool=tool, why="empty key", args=B + ["-k", "", "@IN", "@OUT"]),
+                dict(tool=tool, why="input file does not exist", args=B + ["-k", k, "@IN", "@OUT"], noinput=True),
+            ]
+            if tool != "ecb":
+                opt = "-c" if tool == "ctr" else "-t"
+                bad += [dict(tool=tool, why="counter/tweak too long", args=B + ["-k", k, opt, rb(bs + 1).hex(), "@IN", "@OUT"]),
+                        dict(tool=tool, why="non-hex counter/tweak", args=B + ["-k", k, opt, "0g", "@IN", "@OUT"])]
+    return good, bad
+
+
+def check_C20(work, tier, seed):
+    out = Outcome()
+    r, ok = run_mc(work, out, "MC_Tools", "MC_Tools", must_cover=("Classify", "Process"))
+    if not ok:
+        mc_violation("C20", out, "MC_Tools", r)
+    run_mc(work, out, "MC_Tools", "MCneg_Tools_chunk", expect_fail=True)
+    b = build(work, tools=True, drv=False)
+    tooldir = work.sub("tools")
+    good, bad = gen_tool_cases(seed, tier)
+    rng = random.Random(seed + 5)
+    events = []
+    idx = 0
+    for c in good:
+        idx += 1
+        args = ["-b", str(c["bs"] * 8), "-k", c["key"].hex()]
+        if c["tw"] is not None:
+            args += ["-c" if c["tool"] == "ctr" else "-t", c["tw"].hex()]
+        if c["dec"]:
+            args += ["-d"]
+        args += ["@IN", "@OUT"]
+        rc, ex, data = run_tool(b.root, tooldir, c["tool"], args, c["data"], rng, idx)
+        events.append(json.dumps({"e": "tool", "tool": c["tool"], "bs": c["bs"], "key": list(c["key"]),
+                                  "tw": list(c["tw"] or b""), "twgiven": 1 if c["tw"] is not None else 0,
+                                  "dec": c["dec"], "in": list(c["data"]), "rc": rc, "outexists": ex,
+                                  "out": list(data)}))
+        out.distinct.add((c["tool"], c["bs"], len(c["key"]), len(c["tw"] or b""), c["dec"], len(c["data"])))
+        # running the tool again on its output restores the input (ctr) / the whole blocks (-d)
+        if rc == 0 and ex and (idx % 3 == 0):
+            idx += 1
+            args2 = list(args)
+            if c["tool"] != "ctr":
+                if "-d" in args2:
+                    args2.remove("-d")
+                    d2 = 0
+                else:
+                    args2.insert(-2, "-d")
+                    d2 = 1
+            else:
+                d2 = 0
+            rc2, ex2, data2 = run_tool(b.root, tooldir, c["tool"], args2, data, rng, idx)
+            events.append(json.dumps({"e": "tool", "tool": c["tool"], "bs": c["bs"], "key": list(c["key"]),
+                                      "tw": list(c["tw"] or b""), "twgiven": 1 if c["tw"] is not None else 0,
+                                      "dec": d2, "in": list(data), "rc": rc2, "outexists": ex2, "out": list(data2)}))
+            whole = len(c["data"]) - (0 if c["tool"] == "ctr" else len(c["data"]) % c["bs"])
+            if data2 != c["data"][:whole]:
+                p = save_replay("C20", seed, 700 + idx, events[-2:], "round trip does not restore the input")
+                out.violations.append(("roundtrip", p, "skinny-%s round trip differs (bs=%d key %d bytes)" % (c["tool"], c["bs"], len(c["key"]))))
+    for c in bad:
+        idx += 1
+        rc, ex, data = run_tool(b.root, tooldir, c["tool"], c["args"], None if c.get("noinput") else b"0123456789abcdef" * 3, rng, idx)
+        events.append(json.dumps({"e": "tool_bad", "tool": c["tool"], "why": c["why"], "rc": rc, "outexists": ex,
+                                  "args": " ".join(c["args"])[:200]}))
+        out.distinct.add(("bad", c["tool"], c["why"]))
+    out.events += len(events)
+    # validate in parallel chunks (every event is independent)
+    njobs = min(NCPU, max(1, len(events) // 4))
+    costs = [len(e) for e in events]
+    bins = [[] for _ in range(njobs)]
+    loads = [0] * njobs
+    for e in sorted(events, key=lambda x: -len(x)):
+        i = loads.index(min(loads))
+        bins[i].append(e)
+        loads[i] += len(e)
+    from concurrent.futures import ThreadPoolExecutor
+    with ThreadPoolExecutor(max_workers=njobs) as tp:
+        res = list(tp.map(lambda ch: validate_trace(work, ch, module="ToolsTrace"), bins))
+    for ch, rr in zip(bins, res):
+        out.traces_tlc += len(ch)
+        if not rr.accepted:
+            bad_line = ch[rr.consumed] if rr.consumed < len(ch) else "{}"
+            r2 = validate_trace(work, [bad_line], module="ToolsTrace")
+            if r2.accepted:
+                raise Broken("tool rejection did not repeat")
+            ev = json.loads(bad_line)
+            sig = "tool:%s:%s" % (ev.get("tool"), r2.messages[0][:80] if r2.messages else "")
+            p = save_replay("C20", seed, len(out.violations), [bad_line], sig)
+            out.violations.append((sig, p, "%s | %s" % (" ".join(r2.messages)[:500], bad_line[:300])))
+    out.samples = [e[:260] for e in events[:2]] + [e[:260] for e in events[-2:]]
+    return out, dict(
+        level="exploration",
+        rule="Design: MC_Tools (TLC exhaustive): option classifier over abstract argv = documented conditions; chunked "
+             "loops = whole-file processing for lengths 0..27 (chunk 8, block 4), a chunk size that is not a multiple "
+             "of the block must fail. Code: the three binaries built from the tree, both block sizes, EVERY legal key "
+             "length, counters/tweaks of lengths 1..bs incl. carries and absent, -d, file lengths 0,1,bs-1,bs,bs+1,"
+             "1023,1024,1025(,2047..3089); exit status, output existence, output bytes validated by TLC against "
+             "SkinnySpec (CTR stream law, ECB map, per-block tweak increment); every third case is run again on its "
+             "output (round trip); 12 classes of invalid options per tool must exit non-zero without creating the "
+             "output file. distinct = distinct (tool,bs,key length,counter length,dec,file length) and invalid classes.",
+        assumptions=["short reads from fread() are not provoked", "hex options are plain hex digits"])
+
+
+CHECKS.update({"C20": check_C20})
